@@ -124,6 +124,8 @@ func source(r *rand.Rand, t *model.Node, rep string) (interface{}, string, error
 			return t.ToGo(), "map", nil
 		}
 		return v, rep, nil
+	case "typed":
+		return gen.ToTyped(r, t), rep, nil
 	case "config":
 		c, err := ucfg.NewFrom(t.ToGo())
 		if err != nil {
@@ -160,7 +162,7 @@ func source(r *rand.Rand, t *model.Node, rep string) (interface{}, string, error
 	return t.ToGo(), "map", nil
 }
 
-var reps = []string{"map", "map", "map", "mapi", "struct", "config", "child"}
+var reps = []string{"map", "map", "map", "mapi", "struct", "typed", "config", "child"}
 
 func nonEmpty(t *model.Node) bool { return len(t.D) > 0 || len(t.A) > 0 }
 
